@@ -120,6 +120,80 @@ theorem ac13_span : ∀ f, f < 2 ^ 13 → f &&& 0x40 = 0 →
   | err e => rw [hv] at this; simp [okAnd] at this
   | panic e => rw [hv] at this; simp [okAnd] at this
 
+/-- with M = 0 the field is its own 12 data pulses (X bit already clear) -/
+theorem q0_field : ∀ f, f < 2 ^ 13 → f &&& 0x40 = 0 → f &&& 0x1fbf = f :=
+  enum 13 (by decide +kernel)
+
+/-- the identity-code permutation reads a Gillham field back as the code it carries -/
+theorem gillham_field : ∀ s, s < 2 ^ 11 → s < GILLHAM_STEPS →
+    decodeId13 (ac13OfGillham (gillhamEncode s)) = gillhamEncode s :=
+  enum 11 (by decide +kernel)
+
+/-- **Q = 0, composed (audit L2).**  For EVERY 13-bit field with M = 0 and Q = 0 the decoder
+    returns the standard's value of *that field*: `ac13SpecQ0` (Spec/Altitude.lean) searches the
+    1280 steps of the standard's encoder for the one whose code is the field and reports
+    `-1200 + 100·s` ft (0 when negative, above the `u16` range, or when there is no such step).
+    Proof: `id13_permutation` + `gillham_accepts_only_valid` + `gillham_decode_encode` +
+    `ac13_gillham`'s case split, composed; no new enumeration beyond the two small facts above. -/
+theorem ac13_q0_spec (f : Nat) (hf : f < 2 ^ 13) (hm : f &&& 0x40 = 0) (hq : f &&& 0x10 = 0) :
+    ac13 f = .ok (ac13SpecQ0 f) := by
+  have hF : ac13OfGillham (decodeId13 f) = f := by
+    rw [id13_permutation f hf, q0_field f hf hm]
+  have h16 : decodeId13 f < 2 ^ 16 := by have := (id13_octal f hf).2.2.2.2; omega
+  -- what the search can return
+  have hstep : ∀ s, gillhamStepOf f = some s →
+      s < GILLHAM_STEPS ∧ gillhamEncode s = decodeId13 f := by
+    intro s hs
+    have h1 := List.find?_some hs
+    have h2 := List.mem_of_find?_eq_some hs
+    have hlt : s < GILLHAM_STEPS := List.mem_range.mp h2
+    have heq : ac13OfGillham (gillhamEncode s) = f := by simpa using h1
+    refine ⟨hlt, ?_⟩
+    rw [← gillham_field s (by unfold GILLHAM_STEPS at hlt; omega) hlt, heq]
+  cases hg : gray2alt (decodeId13 f) with
+  | none =>
+    have hac : ac13 f = .ok 0 := by unfold ac13; simp [hm, hq, hg]
+    rw [hac]
+    apply congrArg
+    unfold ac13SpecQ0
+    cases hs : gillhamStepOf f with
+    | none => rfl
+    | some s =>
+      obtain ⟨hlt, he⟩ := hstep s hs
+      have := gillham_decode_encode s (by unfold GILLHAM_STEPS at hlt; omega) hlt
+      rw [he, hg] at this
+      have h12 : ¬ 12 ≤ s := by intro h; simp [h] at this
+      simp [h12]
+  | some a =>
+    obtain ⟨ha, hea⟩ := gillham_accepts_only_valid _ h16 a hg
+    -- the search succeeds, and can only return a + 12
+    have hsome : gillhamStepOf f = some (a + 12) := by
+      cases hs : gillhamStepOf f with
+      | none =>
+        have := List.find?_eq_none.mp hs (a + 12) (List.mem_range.mpr ha)
+        rw [hea, hF] at this; simp at this
+      | some s =>
+        obtain ⟨hlt, he⟩ := hstep s hs
+        have := gillham_decode_encode s (by unfold GILLHAM_STEPS at hlt; omega) hlt
+        rw [he, hg] at this
+        by_cases h12 : 12 ≤ s
+        · rw [if_pos h12] at this
+          have h' : a = s - 12 := Option.some.inj this
+          exact congrArg some (by omega)
+        · simp [h12] at this
+    have hac : ac13 f = if 100 * a < 65536 then .ok (100 * a) else .ok 0 := by
+      unfold ac13; simp [hm, hq, hg]
+    have e : a + 12 - 12 = a := by omega
+    have h12 : 12 ≤ a + 12 := by omega
+    rw [hac]; unfold ac13SpecQ0; rw [hsome]; simp only [e]
+    by_cases h : 100 * a < 65536
+    · rw [if_pos h, if_pos ⟨h12, h⟩]
+    · rw [if_neg h, if_neg (fun x => h x.2)]
+
+/-- Non-vacuity of the specification: step 400 is 38 800 ft, a field with no step is 0. -/
+example : ac13SpecQ0 (ac13OfGillham (gillhamEncode 400)) = 38800 := by decide +kernel
+example : gillhamStepOf 0 = none := by decide +kernel
+
 /-! ### 12-bit ME altitude code, and agreement of the two readers -/
 
 def agree : Outcome (Option Nat) → Outcome Nat → Bool
